@@ -339,7 +339,9 @@ Definition step (P : params) (s : state) (e : event) : option state :=
     | MConnecting => if stop_sig s then Some (st_main s (lo s) (last s) MFinal (cur s)) else None
     | _ => None
     end
-  (* ----- main: resendLeftovers ----- *)
+  (* ----- main: resendLeftovers -----
+     (its "BUG: aborted due to leftover channel closure" branch is not modelled: the leftovers channel handed to a
+      session is closed only by that session's collectLeftovers or, after the last session, by run()) *)
   | EResendStop =>
     match pc s, cur s with
     | MResend, Some ss => if stop_sig s then Some (collect_hard s ss true PNone) else None
